@@ -254,13 +254,24 @@ def main():
                 hist["skipped:" + b] = hist.get("skipped:" + b, 0) + 1
                 continue
             lm = P["line_mask"](c) if "line_mask" in P else P["mask"]
-            v, detail = wire.compare_lines(a, b, lm, P.get("tol"), P.get("float_value_eq", False))
+            pre = P["precompare"](c, a, b) if "precompare" in P else None
+            if pre is not None:
+                v, detail = pre
+            else:
+                if "project" in P:      # compare only the observables this property owns
+                    a, b = P["project"](c, a), P["project"](c, b)
+                v, detail = wire.compare_lines(a, b, lm, P.get("tol"), P.get("float_value_eq", False))
             if v == "same":
                 if len(corr["samples"]) < 6 and (k % max(1, len(lines) // 6) == 0):
                     corr["samples"].append({"case": c[:300], "impl": a[:300], "model": b[:300], "config": cname})
                 continue
             if v == "drift":
                 corr["drift"] += 1
+                continue
+            # the model fixes one of several outputs the property allows (e.g. tie-breaking among equally new candidates):
+            # an implementation output that differs from the model's but still satisfies the property's own predicate is accepted
+            if "accept" in P and P["accept"](c, a, b):
+                corr["accepted_alternatives"] = corr.get("accepted_alternatives", 0) + 1
                 continue
             corr["disagreements"] += 1
             kfhit = [txt for (rx, txt) in kf if rx.search(c)]
@@ -317,6 +328,7 @@ def main():
             "rule": P["rule"], "samples": corr["samples"] or [{"case": lines[0] if lines else ""}],
             "correspondence": {"configs": corr["configs"], "disagreements": corr["disagreements"],
                                "hard": corr["hard"], "soft_within_tolerance": corr["soft"],
+                               "accepted_property_conformant_alternatives": corr.get("accepted_alternatives", 0),
                                "drift_outside_owned_observables": corr["drift"],
                                "owned_observables": sorted(P["mask"]), "tolerance": P.get("tol")},
             "input_distribution": dict(sorted(corr["histogram"].items(), key=lambda kv: -kv[1])[:40]),
